@@ -412,6 +412,22 @@ def loop_live_out_dropped(source, fname, globals_truth):
     return False
 
 
+_CONST_IF_PROBE = None
+
+
+def constant_if_excludes_parameters():
+    """Probe of the real AstAnalyzer: is `if p:` on a parameter p that is also a module global a constant condition?"""
+    global _CONST_IF_PROBE
+    if _CONST_IF_PROBE is None:
+        import ast
+        from onnxscript._internal import analysis, sourceinfo
+        src = "def f(p, x):\n    if p:\n        y = x\n    else:\n        y = p\n    return y\n"
+        f_ast = ast.parse(src).body[0]
+        an = analysis.AstAnalyzer(f_ast, sourceinfo.formatter(src), {"p": True})
+        _CONST_IF_PROBE = an.constant_if_condition(f_ast.body[0]) is None
+    return _CONST_IF_PROBE
+
+
 def if_test_parameter_shadows_global(source, fname, module_names):
     """An `if p:` whose test is a parameter of the function (never assigned in the body) while the module also has a
     global called p: AstAnalyzer._compute_constant_if_conditions only excludes names assigned in the body, so the
